@@ -30,7 +30,7 @@ IPRINTS = (-1, 0, 1, 7, 99, 100, 101, 1000)
 def floors(tier):
     return {"results_compared_with_fresh_baseline": 400, "schedules": 150, "context_switches": 800, "enumerated_schedules": 100,
             "line_level_schedules": 20, "line_events": 20000, "nested_runs": 15, "frozen_cases": 15, "iprint_runs": 100,
-            "double_restarts": 20, "hostile_user_runs": 20, "__nontrivial__": 150}
+            "double_restarts": 20, "hostile_user_runs": 20, "objective_switch_cases_in_which_the_filter_dropped_a_pair": 1, "__nontrivial__": 150}
 
 
 def exhaustive(tier):
@@ -68,13 +68,13 @@ def cases(tier, seed):
         yield {"kind": "frozen", "problem": prob(6), "cfg": small_cfg(rng), "scaler": gen.pick(rng, [None, 0.5, 7.0, "packaged"])}
     for i in range(16 if q else 300):
         yield {"kind": "iprint", "problem": prob(5), "cfg": small_cfg(rng)}
-    for i in range(24 if q else 500):
+    for i in range(64 if q else 800):
         # logging must not influence a run whose objective is redefined on the fly (curvature filter, its "dropping" messages)
         ps = gen.rand_spec(rng, ("qp", "qp_quartic"), nmax=7, nmin=2, boxes=("none", "mixed", "boxed"), starts=("interior", "face"), condmax=1e3)
-        yield {"kind": "iprint_ufd", "switch": {"problem": ps, "maxcor": int(rng.integers(2, 7)), "maxiter": int(rng.integers(6, 12)),
-                                                "switch_at": int(rng.integers(2, 6)), "variant": gen.pick(rng, ["indefinite", "indefinite", "reg"]),
-                                                "vseed": int(rng.integers(0, 2**31 - 1)), "strength": float(rng.uniform(0.5, 3.0)),
-                                                "eps_SY": float(gen.pick(rng, [2.2e-16, 1e-2, 0.1]))}}
+        yield {"kind": "iprint_ufd", "switch": {"problem": ps, "maxcor": int(rng.integers(3, 8)), "maxiter": int(rng.integers(7, 12)),
+                                                "switch_at": int(rng.integers(3, 7)), "variant": gen.pick(rng, ["indefinite", "indefinite", "indefinite", "reg"]),
+                                                "vseed": int(rng.integers(0, 2**31 - 1)), "strength": float(rng.uniform(1.5, 6.0)),
+                                                "eps_SY": float(gen.pick(rng, [2.2e-16, 1e-2, 0.1, 0.3]))}}
     for i in range(16 if q else 200):
         # very short runs so that all interleavings can be enumerated
         ca = dict(jac="callable", maxcor=int(rng.integers(1, 4)), maxls=5, maxiter=int(rng.integers(1, 4)), ftol=0.0, gtol=1e-10, maxfun=6)
@@ -263,6 +263,8 @@ def case_iprint_ufd(spec, out):
     for ip in (-1, 0, 1, 99, 101, 1000):
         for lg in (False, True):
             tr = switch_trace(spec["switch"], dict(iprint=ip, logger=lg))
+            if lg and ip == -1 and tr.log_records is not None and any("Dropping update" in m for m in tr.log_records):
+                out.count("objective_switch_cases_in_which_the_filter_dropped_a_pair")
             out.count("iprint_runs")
             out.count("iprint_runs_with_objective_switch")
             d = digest_of(tr)
